@@ -103,6 +103,18 @@ fn main() {
 			}
 		}
 		"C08" if args.rest.get(1).map(String::as_str) == Some("--real-leg") => c08_real::main_leg(args.tier == Tier::Quick),
+		// a recorded violation of the real-process matrix is replayed by running the matrix again
+		"C08"
+			if args.replay.as_ref().map_or(false, |f| {
+				std::fs::read_to_string(f).ok().and_then(|t| serde_json::from_str::<serde_json::Value>(&t).ok()).map_or(false, |v| v["scenario"].get("real_case").is_some())
+			}) =>
+		{
+			let code = c08_real::main_leg(false);
+			if code == 1 {
+				println!("VIOLATION property=C08 replay={}", args.replay.as_ref().unwrap().display());
+			}
+			code
+		}
 		"C08" => {
 			let h = C08;
 			if args.rest.get(1).map(String::as_str) == Some("--count") {
